@@ -700,6 +700,30 @@ def gen_pins():
                 if not inside:
                     elsewhere.append(fn.name)
     out["screen_refresh"] = " -> ".join(t for _, t in sorted(seq)) + " || elsewhere: " + (" ; ".join(sorted(elsewhere)) or "none")
+    # --- the induced vector potential a run STARTS from (C13, Tdgl/Screening.lean `initialInduced`): every value `solve` gives
+    #     to "induced_vector_potential" before the stages run, with the condition it is given under ---
+    sv = find_func(st, "TDGLSolver", "solve")
+    starts = []
+
+    def walk_solve(body, conds):
+        for stn in body:
+            for n in ast.walk(stn) if not isinstance(stn, (ast.If, ast.With, ast.For, ast.While, ast.Try)) else []:
+                if isinstance(n, ast.Dict):
+                    for k_, v_ in zip(n.keys, n.values):
+                        if isinstance(k_, ast.Constant) and k_.value == "induced_vector_potential":
+                            starts.append((" and ".join(conds) or "always") + ": " + ast.unparse(v_))
+            if isinstance(stn, ast.Assign) and any(isinstance(t, ast.Subscript) and "induced_vector_potential" in ast.unparse(t) for t in stn.targets):
+                starts.append((" and ".join(conds) or "always") + ": " + ast.unparse(stn.value))
+            if isinstance(stn, ast.If):
+                walk_solve(stn.body, conds + [ast.unparse(stn.test)])
+                walk_solve(stn.orelse, conds + ["not (" + ast.unparse(stn.test) + ")"])
+            elif isinstance(stn, (ast.With, ast.For, ast.While)):
+                walk_solve(stn.body, conds)
+            elif isinstance(stn, ast.Try):
+                walk_solve(stn.body, conds)
+
+    walk_solve(sv.body, [])
+    out["seed_induced"] = " ; ".join(starts)
     lines = [HEADER.format(src="tdgl/solver/solver.py, tdgl/solver/runner.py (source pins)", sha=sha_of(solver) + "/" + sha_of(runner)), "namespace Tdgl.Gen\n"]
     for k, v in out.items():
         lines.append(f"def pin_{k} : String := {lean_str(v)}")
